@@ -652,10 +652,29 @@ def replay_ota_history(model, rec):
                 why = download(gw, n, 3, 7, image, order)
                 if why:
                     return True, f"version {version}, after registering {what}: {why}"
+        # two firmwares at once: node 1 is scheduled for (3,7) = A, node 2 for (5,9) = B; node 1, past its config
+        # step, asks for blocks of B (a node still pulling the image of an earlier assignment does this): every answer
+        # must echo the type, version and index it answers and carry B's bytes
+        gw.tasks.ota.make_update([1], 3, 7, img_a)
+        gw.tasks.ota.make_update([2], 5, 9, img_b)
+        req = binascii.hexlify(struct.pack("<5H", 9, 9, 1, 0, 0x0101)).decode()
+        gw.logic(f"1;255;4;0;0;{req}\n")
+        padded_b = img_b + b"\xff" * (-len(img_b) % 128)
+        for blk in (len(padded_b) // 16 - 1, 0, 3):
+            breq = binascii.hexlify(struct.pack("<3H", 5, 9, blk)).decode()
+            r = gw.logic(f"1;255;4;0;2;{breq}\n")
+            if r is None:
+                continue  # refusing to serve an image the node is not scheduled for is not a wrong answer
+            pay = binascii.unhexlify(r.rstrip().split(";")[5])
+            if struct.unpack("<3H", pay[:6]) != (5, 9, blk) or pay[6:] != padded_b[blk * 16 : blk * 16 + 16]:
+                return True, (
+                    f"version {version}: node 1 (scheduled for type 3 version 7) asks for block {blk} of type 5 version 9 and is "
+                    f"answered with header {struct.unpack('<3H', pay[:6])} and data {pay[6:].hex()}; that block is {padded_b[blk * 16 : blk * 16 + 16].hex()}"
+                )
     return False, "every download served the registered image"
 
 
-HOOKS.insert(0, (re.compile(r"^(OTAFirmware|prepare_fw|L\.header|L\.blocks).*frame\."), replay_ota_history))
+HOOKS.insert(0, (re.compile(r"^(OTAFirmware|prepare_fw|L\.header|L\.blocks).*frame\.|^OTAFirmware\.respond_fw"), replay_ota_history))
 
 
 def replay_gateway_schedules(model, rec):
@@ -977,3 +996,122 @@ def replay_dirty_flag(model, rec):
 
 
 HOOKS.insert(0, (re.compile(r"reservation-marked-dirty|dirty-on-change|dirty-sticky|events-on-change|events-at-most-one"), replay_dirty_flag))
+
+
+# Hooks that are self-contained searches over a fixed corpus (they do not read the counter-model) and that cannot
+# reproduce a recorded known finding: the runner may use them as the bounded stand-in for a task the engine left
+# undecided.
+STANDIN_HOOKS = {replay_framing, replay_codec, replay_mqtt, replay_prepare_fw, replay_config, replay_next_id, replay_validate, replay_damaged_files, replay_roundtrip}
+
+
+def replay_concurrent_report(model, rec):
+    """a value reported by the pump thread while the timer thread is inside save_sensors (after the serialiser ran,
+    before the function returns), then a clean stop and a restart: the restarted gateway must hold the value"""
+    import os
+    import shutil
+    import tempfile
+    import threading
+    from unittest import mock
+
+    import mysensors
+    from mysensors import persistence as P
+
+    for ext in (".json", ".pickle"):
+        for where in ("fsync", "rename"):
+            d = tempfile.mkdtemp(prefix="pyvc_race_")
+            try:
+                path = os.path.join(d, "state" + ext)
+                with mock.patch("threading.Timer"):
+                    gw = mysensors.Gateway(protocol_version="2.0")
+                    gw.tasks = mysensors.task.SyncTasks(gw.const, True, path, gw.sensors, mock.MagicMock())
+                    for line in ("1;255;0;0;17;2.0\n", "1;0;0;0;6;\n", "1;0;1;0;0;20.0\n"):
+                        gw.logic(line)
+                    gw.tasks.persistence.save_sensors()
+                    gw.logic("1;0;1;0;0;21.0\n")
+                    real = getattr(os, where)
+                    fired = []
+
+                    def op_then_report(*a, _real=real, _gw=gw, _fired=fired):
+                        if not _fired:
+                            _fired.append(1)
+                            t = threading.Thread(target=_gw.logic, args=("1;0;1;0;0;22.5\n",))
+                            t.start()
+                            t.join()
+                        return _real(*a)
+
+                    with mock.patch.object(P.os, where, op_then_report):
+                        gw.tasks.persistence.save_sensors()
+                    held = gw.sensors[1].children[0].values[0]
+                    gw.tasks.stop()
+                gw2 = mysensors.Gateway(protocol_version="2.0")
+                with mock.patch("threading.Timer"):
+                    gw2.tasks = mysensors.task.SyncTasks(gw2.const, True, path, gw2.sensors, mock.MagicMock())
+                    gw2.tasks.persistence.safe_load_sensors()
+                got = gw2.sensors[1].children[0].values[0] if 1 in gw2.sensors else None
+                if got != held:
+                    return True, (
+                        f"{ext}: '1;0;1;0;0;22.5' handled by the pump thread while the periodic save was at its {where} call; the save "
+                        f"returned with need_save = False, stop() skipped the final save; gateway held {held!r} at stop, the restarted gateway holds {got!r}"
+                    )
+            finally:
+                shutil.rmtree(d, ignore_errors=True)
+    return False, "a report racing with a periodic save is on disk after a clean stop"
+
+
+HOOKS.insert(0, (re.compile(r"concurrent-report"), replay_concurrent_report))
+
+
+def replay_stop_during_retry(model, rec):
+    """threaded connect loops: the peer is unreachable, the loop sleeps between attempts, the user stops the gateway
+    during the second sleep; afterwards the peer becomes reachable.  No attempt, reader or callback may follow."""
+    from unittest import mock
+
+    from mysensors import gateway_serial as GS
+    from mysensors import gateway_tcp as GT
+    from mysensors.transport import SyncTransport
+
+    class Enough(Exception):
+        pass
+
+    for mod, fn_name, fail in ((GT, "create_connection", OSError("unreachable")), (GS, "serial_for_url", GS.serial.SerialException("no port"))):
+        gw = mock.MagicMock()
+        gw.server_address = ("host", 5003)
+        transport = SyncTransport(gw, mod.sync_connect, timeout=1.0, reconnect_timeout=7.0)
+        events = []
+        sleeps = []
+
+        def attempt(*a, _e=events, _s=sleeps, _f=fail, **k):
+            _e.append(("attempt", len(_s)))
+            if len(_s) < 4:
+                raise _f
+            return mock.MagicMock()
+
+        def sleep(sec, _e=events, _s=sleeps, _t=transport):
+            _s.append(sec)
+            if len(_s) == 2:
+                _t.disconnect()  # what SyncTasks.stop() does first
+                _e.append(("stop", len(_s)))
+            if len(_s) > 8:
+                raise Enough()
+
+        target = mock.patch.object(mod.socket, "create_connection", attempt) if mod is GT else mock.patch.object(mod.serial, "serial_for_url", attempt)
+        reader = mock.patch.object(GT, "TCPTransport") if mod is GT else mock.patch.object(mod.serial.threaded, "ReaderThread")
+        with target, reader as rd, mock.patch.object(mod.time, "sleep", sleep):
+            try:
+                mod.sync_connect(transport)
+            except Enough:
+                pass
+            started = rd.call_count
+        stop_at = next((i for i, e in enumerate(events) if e[0] == "stop"), None)
+        later = [e for e in events[stop_at + 1 :] if e[0] == "attempt"] if stop_at is not None else []
+        if later or (stop_at is not None and started):
+            return True, (
+                f"{mod.__name__}.sync_connect: two failed attempts, stop() during the second wait of 7.0 s; afterwards the loop made "
+                f"{len(later)} more connect attempt(s) and started {started} reader thread(s)"
+            )
+    if "tcp" in rec["name"]:
+        return replay_late_dial_in(model, rec)
+    return False, "no attempt follows a stop during the retry wait"
+
+
+HOOKS.insert(0, (re.compile(r"sync-(tcp|serial)_connect|sync_connect\.loop0"), replay_stop_during_retry))
